@@ -11,17 +11,18 @@ def _c(text, note, ref):
 
 TECH_ENUM = 'CrossHair 0.0.110 / z3 bounded model checking of the real code: the input structure (model, history, program) is a vector of symbolic bool/int choices with solver-checked preconditions; z3 decides every branch on them, each feasible path drives the real maltoolbox code on the induced input and is compared with a reference model; cubes run on 16 cores to "Confirmed over all paths"; counterexamples are replayed on the real code'
 TECH = {k: TECH_SYM for k in ('C06', 'C08', 'C10', 'C11', 'C12', 'C13', 'C14')}
+TECH['C17'] = TECH_SYM + ' (symbolic source text through the ANTLR lexer/parser); token-level queries: ' + TECH_ENUM
 TECH['C04'] = TECH_ENUM + '; _post_process_multitudes executed on symbolic strings'
 TECH['C16'] = TECH_ENUM + '; PYTHONHASHSEED clause by enumerated configurations'
 
 CLAIMED = {
- 'C01': _c('Every link matrix over two relations on 2 assets and every bounded one on 3 assets (self-links, cycles, shared members) is decided by the solver; on each the real Model API builds the model, the real generator runs and the children/parents of every node are compared with a reference evaluator of MAL set semantics over ~40 catalogued expressions (transitive only bounded from both sides).',
+ 'C01': _c('Every link matrix over two relations on 2 assets and every bounded one on 3 assets (self-links, cycles, shared members) is decided by the solver; on each the real Model API builds the model, the real generator runs and the children/parents of every node are compared with a reference evaluator of MAL set semantics over ~40 catalogued expressions (transitive only bounded from both sides; collect evaluated per asset); further queries: the inheritance family F_INH with 5 assets and link subsets (graph generated twice), and two languages with identical names but different bodies used alternately in one interpreter.',
            'Trusted: CrossHair/z3, reference evaluator xh/langs.py:ev. After the link bits are decided all values are concrete, so the generator itself runs untraced on that path. Outside: >3 assets, expressions outside the catalogue.', '4/C01'),
  'C02': _c('For the inheritance language L_INH all type/defense/link picks of a 3-asset model and all name triples over 4 names are decided; node set, attributes, defense/existence status, id and full-name uniqueness and lookups are compared with the root-down fold of the specification.',
            'Trusted: CrossHair/z3, xh/langs.py:ref_fold and ev. Names are picks (pjo rejects symbolic str).', '4/C02'),
  'C03': _c('All 256 override/extend/absent assignments over a 3-level inheritance tree x all histories of 2 (quick) / 3 (thorough) lookups, regenerations and attack-graph generations; after every step every type is compared with the fold and _lang_spec with its snapshot.',
            'Trusted: CrossHair/z3, reference fold. Outside: deeper chains, several interacting redefined steps.', '4/C03'),
- 'C05': _c('Inductive-step formulation: 64 API-built pre-states x every operation (valid and invalid arguments) of the Model/AttackerAttachment API, 1 step (quick) / 2 steps (thorough), compared after every step with an abstract reference model through _to_dict, lookups, back-references, neighbours and entry points.',
+ 'C05': _c('Inductive-step formulation: API-built pre-states (9 bits: assets, links, self-links alone and beside other members, packed fields, one or two attackers, colliding names) x every operation (valid and invalid arguments) of the Model/AttackerAttachment API, 1 step (quick) / 2 steps (thorough), compared after every step with an abstract reference model through _to_dict, lookups, back-references, neighbours and entry points.',
            'Trusted: CrossHair/z3, abstract model in xh/h_c05.py. Universe of <= 4 assets of one type.', '4/C05'),
  'C06': _c('A fully symbolic float (all reals, +-inf) is pushed through the generated class\'s real validation: accepted iff in [0,1]; class exposure (assets, inherited defenses, defaults, duplicate-named associations) and association acceptance (type conformance, max multiplicity, repetition, existing link) are decided over all picks.',
            'Trusted: CrossHair/z3; python_jsonschema_objects is executed, not specified; its min/max error-text formatting is stubbed. NaN outside.', '4/C06'),
@@ -41,8 +42,8 @@ CLAIMED = {
            'Trusted: CrossHair/z3, reference fold. Dependency chains attached to links are not observed.', '4/C15'),
  'C16': _c('For every 3-asset L_INH model of the C02 bound: generate+attach+analyse twice in one process (equal serialisation, inputs unchanged, no shared node) and through create_attack_graph from .mar+json and .mal+yml files. Hash seeds: the same generation in fresh interpreters under 3 (quick) / 5 (thorough) PYTHONHASHSEED values - an enumerated configuration, not solver-decided.',
            'Trusted: CrossHair/z3; the .mal route relies on xh/malprint.py. PYTHONHASHSEED cannot be symbolic.', '4/C16'),
- 'C17': _c('Token-level: every lexeme sequence of length <= 2 (quick) / 3 (thorough) over a 21-lexeme alphabet and every single-token deletion / insertion / substitution / truncation of a valid program, as root file, included file and nested include; whenever the grammar\'s own lexer/parser report an error to a counting listener, compile() must raise.',
-           'Trusted: CrossHair/z3, the generated ANTLR lexer/parser as oracle (as the property states). Character-level symbolic text through the ATN simulator is out of reach (2 symbolic characters do not exhaust in 600 s).', '4/C17'),
+ 'C17': _c('Character-level: a SYMBOLIC string of <= 2 characters over an 11-character alphabet (thorough: also as included file and over a 34-character alphabet) is executed through the real ANTLR lexer, parser and compiler under tracing - z3 decides the ATN simulator\'s branches on the symbolic characters. Token-level: every lexeme sequence of length <= 2 (quick) / 3 (thorough) over a 21-lexeme alphabet and every single-token deletion / insertion / substitution / truncation of a valid program, as root file, included file, nested include and root-that-also-includes; a rejected compilation is retried on the same compiler object; whenever the grammar\'s own lexer/parser report an error to a counting listener, compile() must raise.',
+           'Trusted: CrossHair/z3, the generated ANTLR lexer/parser as oracle (as the property states). Symbolic text beyond 2 characters / the stated alphabets is outside (an unconstrained 2-character string does not exhaust in 600 s).', '4/C17'),
  'C18': _c('3-asset L_INH models (ids incl. 0 and negative, defenses, links incl. duplicate-named classes and several members per field, attacker with up to 4 entry points incl. two on one asset) are emitted by inverse translators in the 0.0.39 layout (2 variants x json/yml/yaml) and as .sCAD archives (2 orientations) and loaded by the legacy loaders; assets, pairwise links and entry points are compared with the natively saved and loaded model.',
            'Trusted: CrossHair/z3, the inverse translators in xh/h_c18.py (my reading of the legacy formats; .eom element names follow the repository fixture).', '4/C18'),
  'C19': _c('Models and attack graphs are ingested into a recording stand-in for py2neo.Graph: nodes/relationships are compared with assets/linked pairs/attack steps/edges; get_model reads the ingested model back with result rows in every asset permutation and rotated/reversed relationship order (symbolic picks) and must reconstruct the same assets and links.',
